@@ -137,22 +137,35 @@ fn wide_text(rng: &mut Rng, min_bytes: usize) -> String {
   for _ in 0..rng.below(8) {
     t.push((b'a' + rng.below(26) as u8) as char);
   }
+  // one time in three a single character repeated: with the ASCII prefix above every alignment
+  // 0..3 of the character grid relative to a fixed cut point (255/256/512/1024/2048/4096 bytes
+  // of the text or of a message that embeds it) comes up
+  let uniform = if rng.chance(1, 3) { Some(WIDE[rng.below(WIDE.len())]) } else { None };
   while t.len() < min_bytes {
-    t.push_str(WIDE[rng.below(WIDE.len())]);
-    if rng.chance(1, 9) {
+    t.push_str(uniform.unwrap_or_else(|| WIDE[rng.below(WIDE.len())]));
+    if uniform.is_none() && rng.chance(1, 9) {
       t.push(' ');
     }
   }
   t
 }
 
-fn wide_len(rng: &mut Rng) -> usize {
+/// lengths around the places where texts get cut: short (40–520 bytes) and, where the body
+/// limit of the session leaves room, long (1–5 KiB: messages capped at 1024/2048/4096 bytes)
+fn wide_len(rng: &mut Rng, max_body: usize) -> usize {
+  let long = [900usize, 1000, 1024, 1030, 1100, 1500, 2040, 2100, 3000, 4090, 4200, 5000];
+  if rng.chance(1, 2) {
+    let n = *rng.pick(&long);
+    if n * 3 < max_body {
+      return n;
+    }
+  }
   *rng.pick(&[40usize, 62, 66, 70, 90, 130, 200, 260, 520])
 }
 
 /// long NDJSON lines with multi-byte characters: invalid JSON, non-objects, rejected documents
-fn wide_ndjson(rng: &mut Rng) -> Vec<u8> {
-  let n = wide_len(rng);
+fn wide_ndjson(rng: &mut Rng, max_body: usize) -> Vec<u8> {
+  let n = wide_len(rng, max_body);
   let w = wide_text(rng, n);
   let line = match rng.below(8) {
     0 => format!("{{\"_id\":\"w1\",\"body\":\"{w}"),
@@ -182,8 +195,8 @@ fn wide_ndjson(rng: &mut Rng) -> Vec<u8> {
 
 /// long bodies with multi-byte characters for the JSON endpoints: cut-off JSON, and valid
 /// JSON whose wide member ends up in an error message (unknown field, bad cursor, bad id, …)
-fn wide_json(rng: &mut Rng) -> (&'static str, Vec<u8>) {
-  let n = wide_len(rng);
+fn wide_json(rng: &mut Rng, max_body: usize) -> (&'static str, Vec<u8>) {
+  let n = wide_len(rng, max_body);
   let w = wide_text(rng, n);
   match rng.below(14) {
     0 => ("/search", format!("{{\"query\":\"{w}").into_bytes()),
@@ -293,7 +306,7 @@ fn gen_step(rng: &mut Rng, max_body: usize, next_id: &mut usize, allow_stall: &m
   match k {
     0..=2 => step("healthz", "GET", "/healthz", None, b"", "cl"),
     3..=5 => {
-      let (path, body) = wide_json(rng);
+      let (path, body) = wide_json(rng, max_body);
       step("wide.json", "POST", path, Some(j), &body, "cl")
     }
     6..=8 => step("stats", "GET", if rng.chance(1, 2) { "/stats" } else { "/inspect" }, None, b"", "cl"),
@@ -322,7 +335,7 @@ fn gen_step(rng: &mut Rng, max_body: usize, next_id: &mut usize, allow_stall: &m
       step("add.valid", "POST", "/add", if rng.chance(1, 2) { Some("application/x-ndjson") } else { None }, &ndjson(&docs), &framing)
     }
     25..=26 => {
-      let body = wide_ndjson(rng);
+      let body = wide_ndjson(rng, max_body);
       step("wide.ndjson", "POST", "/add", None, &body, if rng.chance(1, 5) { "chunked:37" } else { "cl" })
     }
     27..=29 => {
@@ -652,27 +665,30 @@ fn copy_dir(from: &Path, to: &Path) {
   }
 }
 
-/// outcome of `writer().commit()` on a private copy of the directory
-fn probe_commit(idx: &Path, armed: u8) -> &'static str {
+/// outcome of `/commit`'s library work — `writer().commit()`, then `index.reader()` when the
+/// server runs with `--refresh-on-commit` — on a private copy of the directory
+fn probe_commit(idx: &Path, armed: u8, refresh: bool) -> &'static str {
   let tmp = scratch();
   let copy = tmp.path().join("copy");
   copy_dir(idx, &copy);
   // the copy lives under another prefix: give it the same fault mode
   let _g = if armed != 0 {
-    searchlite_core::storage::verif::install(copy.clone(), fault_hook(Arc::new(AtomicU8::new(armed))));
+    let mode = Arc::new(AtomicU8::new(armed));
+    searchlite_core::storage::verif::install(copy.clone(), fault_hook(mode.clone()));
+    searchlite_core::storage::verif::install_points(copy.clone(), point_hook(mode));
     Some(HookGuard(copy.clone()))
   } else {
     None
   };
-  match guarded(|| {
+  class3(guarded(|| {
     let i = Index::open(lib_opts(&copy, false))?;
     let mut w = i.writer()?;
-    w.commit()
-  }) {
-    Ok(Ok(())) => "ok",
-    Ok(Err(_)) => "err",
-    Err(_) => "panic",
-  }
+    w.commit()?;
+    if refresh {
+      i.reader().map(|_| ())?;
+    }
+    Ok(())
+  }))
 }
 
 fn probe_search(h: Option<&Index>, idx: &Path, req: &SearchRequest) -> &'static str {
@@ -684,6 +700,23 @@ fn probe_search(h: Option<&Index>, idx: &Path, req: &SearchRequest) -> &'static 
 /// Primitives a destructor may issue during unwinding (sync/flush/write/set_len) only fail.
 const ARM_ERR: u8 = 1;
 const ARM_PANIC: u8 = 2;
+/// panic at the reader's pause points (`reader.after_manifest_copy`, `reader.before_segment_open`)
+const ARM_READER_PANIC: u8 = 3;
+/// panic at the first pause point of a commit (`commit.after_snapshot`)
+const ARM_COMMIT_PANIC: u8 = 4;
+
+fn point_hook(mode: Arc<AtomicU8>) -> searchlite_core::storage::verif::PointHook {
+  Arc::new(move |_root: &Path, kind: &'static str, name: &'static str| {
+    if kind != "at" {
+      return;
+    }
+    match mode.load(Ordering::SeqCst) {
+      ARM_READER_PANIC if name.starts_with("reader.") => panic!("injected panic at {name}"),
+      ARM_COMMIT_PANIC if name == "commit.after_snapshot" => panic!("injected panic at {name}"),
+      _ => {}
+    }
+  })
+}
 
 fn fault_hook(mode: Arc<AtomicU8>) -> searchlite_core::storage::verif::FsHook {
   Arc::new(move |ev: &searchlite_core::storage::verif::FsEvent| {
@@ -707,6 +740,7 @@ fn fault_hook(mode: Arc<AtomicU8>) -> searchlite_core::storage::verif::FsHook {
 struct HookGuard(PathBuf);
 impl Drop for HookGuard {
   fn drop(&mut self) {
+    searchlite_core::storage::verif::uninstall_points(&self.0);
     searchlite_core::storage::verif::uninstall(&self.0);
   }
 }
@@ -729,6 +763,8 @@ struct Sess {
   max_body: usize,
   /// storage fault mode currently armed (0 = none)
   armed: u8,
+  /// the server runs with `--refresh-on-commit`
+  refresh: bool,
   /// the harness's own handle on the directory (see `with_index`)
   handle: Option<Index>,
   /// the server holds an open `Index`
@@ -982,7 +1018,7 @@ fn derive(sess: &Sess, stepv: &Value, w: &Wire) -> Derived {
     "commit" => {
       d.loads = idx_state == "ready";
       if idx_state == "ready" {
-        let core = probe_commit(&sess.idx, sess.armed);
+        let core = probe_commit(&sess.idx, sess.armed, sess.refresh);
         d.cores = vec![core];
         d.expect = match core {
           "ok" => "2xx",
@@ -1148,7 +1184,7 @@ impl Prop for C24 {
     tier.pick(64, 6000)
   }
   fn gen(&self, rng: &mut Rng, _tier: Tier, i: usize) -> Value {
-    let max_body = *rng.pick(&[1024usize, 2048, 4096, 16384]);
+    let max_body = *rng.pick(&[1024usize, 2048, 4096, 16384, 16384, 65536]);
     let kind = match i % 8 {
       0 => "preexisting",
       1 => "late_external",
@@ -1195,7 +1231,7 @@ impl Prop for C24 {
         steps.push(step("init.valid", "POST", "/init", j, schema_pool(rng.below(2)).to_string().as_bytes(), "cl"));
         steps.push(step("add.valid", "POST", "/add", None, &ndjson(&[gen_doc(rng, 1), gen_doc(rng, 2)]), "cl"));
         steps.push(step("commit", "POST", "/commit", None, b"", "cl"));
-        for arm in ["arm_err", "arm_panic"] {
+        for arm in ["arm_err", "arm_panic", "arm_reader_panic", "arm_commit_panic"] {
           steps.push(json!({"tag": "disk", "disk": arm}));
           let mut reqs = vec![
             step("search.valid", "POST", "/search", j, search_pool(rng).to_string().as_bytes(), "cl"),
@@ -1225,7 +1261,9 @@ impl Prop for C24 {
       steps.push(step("bulk.over_axum_default", "POST", "/bulk", j, &padded_bulk(AXUM_DEFAULT_LIMIT + 1000, "big"), "cl"));
       return json!({"kind": kind, "cfg": {"max_body": 8 * 1024 * 1024, "timeout_secs": if with_stall { 5 } else { 60 }}, "steps": steps});
     }
-    json!({"kind": kind, "cfg": {"max_body": max_body, "timeout_secs": if with_stall { 5 } else { 60 }}, "steps": steps})
+    // fault sessions (and every third other session) run with --refresh-on-commit
+    let refresh = kind == "storage_faults" || i % 3 == 0;
+    json!({"kind": kind, "cfg": {"max_body": max_body, "timeout_secs": if with_stall { 5 } else { 60 }, "refresh_on_commit": refresh}, "steps": steps})
   }
 
   fn run_case(&self, drv: &mut Driver, case: &Value, s: &mut Summary) {
@@ -1237,7 +1275,8 @@ impl Prop for C24 {
     if kind == "preexisting" {
       disk_action("create_external", &idx);
     }
-    let cfg = ServerCfg { max_body: max_body as u64, timeout_secs, ..Default::default() };
+    let refresh = case["cfg"]["refresh_on_commit"] == json!(true);
+    let cfg = ServerCfg { max_body: max_body as u64, timeout_secs, refresh_on_commit: refresh, ..Default::default() };
     let srv = match Server::start(&idx, &cfg) {
       Ok(s) => s,
       Err(e) => {
@@ -1245,9 +1284,10 @@ impl Prop for C24 {
         return;
       }
     };
-    let mut sess = Sess { idx: idx.clone(), max_body, armed: 0, handle: None, loaded: kind == "preexisting" };
+    let mut sess = Sess { idx: idx.clone(), max_body, armed: 0, refresh, handle: None, loaded: kind == "preexisting" };
     let fault_mode = Arc::new(AtomicU8::new(0));
     searchlite_core::storage::verif::install(idx.clone(), fault_hook(fault_mode.clone()));
+    searchlite_core::storage::verif::install_points(idx.clone(), point_hook(fault_mode.clone()));
     let _hook_guard = HookGuard(idx.clone());
     s.count(&format!("session.{kind}"));
     let steps = case["steps"].as_array().cloned().unwrap_or_default();
@@ -1260,16 +1300,21 @@ impl Prop for C24 {
         c
       };
       if let Some(dk) = stepv["disk"].as_str() {
-        if matches!(dk, "arm_err" | "arm_panic" | "disarm") {
+        if matches!(dk, "arm_err" | "arm_panic" | "arm_reader_panic" | "arm_commit_panic" | "disarm") {
           // only once the server holds the index: `require_index` opens it on the async task
           let m = match dk {
             "arm_err" if sess.loaded => ARM_ERR,
             "arm_panic" if sess.loaded => ARM_PANIC,
+            "arm_reader_panic" if sess.loaded => ARM_READER_PANIC,
+            "arm_commit_panic" if sess.loaded => ARM_COMMIT_PANIC,
             _ => 0,
           };
           if sess.armed == 0 {
             // the handle must see everything the server has committed so far
             sess.handle = if idx.join("MANIFEST.json").exists() { Index::open(lib_opts(&idx, false)).ok() } else { None };
+            if std::env::var("C24_TRACE").is_ok() {
+              eprintln!("[arm {dk}] handle: {:?}", Index::open(lib_opts(&idx, false)).err().map(|e| format!("{e:#}")));
+            }
           }
           fault_mode.store(m, Ordering::SeqCst);
           sess.armed = m;
@@ -1296,8 +1341,9 @@ impl Prop for C24 {
         }
         continue;
       }
-      if sess.armed == 0 {
-        // follow the server's commits: a fresh handle while nothing is armed
+      if sess.armed == 0 || sess.armed >= ARM_READER_PANIC {
+        // follow the server's commits: a fresh handle while no storage fault is armed (the
+        // pause-point panics leave `Index::open` alone, and commits/compactions still succeed)
         sess.handle = if idx.join("MANIFEST.json").exists() { Index::open(lib_opts(&idx, false)).ok() } else { None };
       }
       let w = wire(stepv, stall_wait);
